@@ -112,4 +112,12 @@ def transposeReads (cfg : Cfg) (sz nR nC M N : Nat) : List Nat :=
   | .plain => plainReads M N
   | .blocked => blockedReads M N (cfg.native.lanes sz) nR nC
 
+/-- `TensorMap<T,N,M> dst(p); dst = trans(A);` — an expression that is evaluated in stages is first materialised in a
+    temporary tensor (`const result_type tmp(src)`: the `_transpose` above, into the temporary whose previous contents are
+    `t0`) and then copied linearly into the map (`trivial_assign`: vector stores in increasing order, scalar tail) -/
+def mapAssignWrites (cfg : Cfg) (sz nR nC : Nat) (a : Nat → α) (g1 g2 : Nat → Nat → Nat → α) (t0 : Nat → α) (M N : Nat) :
+    List (Nat × α) :=
+  let tmp := applyWrites (transposeWrites cfg sz nR nC a g1 g2 M N) t0
+  (List.range (N * M)).map fun p => (p, tmp p)
+
 end Fastor.Transpose
